@@ -76,7 +76,7 @@ KERNELS = [
 ]
 
 ERRS = {'LagtimeError': 'Err.lagtime', 'ValueError': 'Err.value', 'TypeError': 'Err.type', 'IndexError': 'Err.index',
-        'NotImplementedError': 'Err.notImplemented', 'AssertionError': 'Err.assertion'}
+        'NotImplementedError': 'Err.notImplemented', 'AssertionError': 'Err.assertion', 'FileError': 'Err.file'}
 
 
 # --------------------------------------------------------------------------- types
